@@ -12,8 +12,13 @@
     - [schema/impls.rs]: [u8] is always one byte; [usize] travels as [u64];
       [bool] is one byte 0/1; [Option] is a one byte tag 0/1; [String], [Vec<T>],
       [Box<[T]>] are a length (a [u64] in the configured integer encoding)
-      followed by the elements; a length above the preallocation limit (4 MiB of
-      elements, each counted at least one byte) is refused on both sides;
+      followed by the elements.  [len.rs] ([SeqLen::prealloc_check]): a
+      configuration with a "preallocation size limit" (the default one: 4 MiB)
+      refuses, when writing AND when reading, every sequence with
+      [len * max(size_of::<T>(), 1) > limit] ([T] = the in-memory element type;
+      [u8] for strings).  Since /repo 40b4e42 ctbuilder uses
+      [.disable_preallocation_size_limit()] on both sides: [decode] below has no
+      limit; [decode_limited] is the reader of a configuration that has one;
     - wincode-derive: structs/tuples = fields in declaration order; enums = the
       variant index as a [u32] in the configured integer encoding, then the
       fields of the variant.
@@ -69,9 +74,8 @@ Inductive stw := St8 | St16 | St32.
 Definition st_schema (t : stw) : schema :=
   match t with St8 => SU8 | St16 => SInt W16 | St32 => SInt W32 end.
 
-(** wincode's DEFAULT_PREALLOCATION_SIZE_LIMIT = 4 << 20; a sequence length
-    [len] is refused when [len * max(size_of::<T>(),1)] exceeds it, hence in
-    particular when [len] itself does. *)
+(** wincode's DEFAULT_PREALLOCATION_SIZE_LIMIT = 4 << 20 bytes (the limit of
+    [Configuration::default()], in force in ctbuilder before /repo 40b4e42). *)
 Definition PREALLOC_LIMIT : N := 4194304.
 
 (* ---------- little endian ---------- *)
@@ -179,7 +183,7 @@ Fixpoint decode (c : cfg) (s : schema) (bs : list N) {struct s} : option (value 
       end
   | SString =>
       match dec_int c W64 bs with
-      | Some (n, r) => if PREALLOC_LIMIT <? n then None else wrap VBytes (take (N.to_nat n) r)
+      | Some (n, r) => wrap VBytes (take (N.to_nat n) r)
       | None => None
       end
   | SOption s' =>
@@ -191,8 +195,7 @@ Fixpoint decode (c : cfg) (s : schema) (bs : list N) {struct s} : option (value 
   | SVec s' =>
       match dec_int c W64 bs with
       | Some (n, r) =>
-          if PREALLOC_LIMIT <? n then None
-          else wrap VList
+          wrap VList
             ((fix rep (k : nat) (bs : list N) {struct k} : option (list value * list N) :=
                 match k with
                 | O => Some ([], bs)
@@ -307,4 +310,238 @@ Fixpoint dec_pick (c : cfg) (t : nat) (r : list N) (ss : list schema) (i : nat) 
       | O => wrap (VEnum t) (decode c s' r)
       | S i' => dec_pick c t r ss' i'
       end
+  end.
+
+(* ====================================================================== *)
+(** * The reader of a configuration WITH a preallocation size limit
+
+    [len.rs], [SeqLen::prealloc_check::<T>(len)]:
+      [needed = len.checked_mul(max(size_of::<T>(), 1))]; error if the product
+      overflows or [needed > limit].
+    Call sites ([schema/containers.rs], [schema/impls.rs]): [Vec<T>], [Box<[T]>]
+    read [Len::read_prealloc_check::<T::Dst>] before allocating, write
+    [Len::prealloc_check::<T>] before the first byte; [String] / [str] use
+    [T = u8].  The element size is the size of the IN-MEMORY element (40 bytes
+    for a [(String, Span)]), not of its encoding: it is a parameter [esz] of the
+    reader below ([mem_size] is the instance for the types of Schema_gen.v).
+    Numbers are unbounded here: an overflowing product is above any limit that
+    fits a [usize], so the two error cases of [check] coincide. *)
+
+Definition over_limit (limit esz n : N) : bool := limit <? n * N.max esz 1.
+
+Fixpoint decode_limited (limit : N) (esz : schema -> N) (c : cfg) (s : schema) (bs : list N)
+  {struct s} : option (value * list N) :=
+  match s with
+  | SU8 => match bs with b :: r => Some (VInt b, r) | [] => None end
+  | SInt w => wrap VInt (dec_int c w bs)
+  | SBool =>
+      match bs with
+      | b :: r => if b =? 0 then Some (VBool false, r)
+                  else if b =? 1 then Some (VBool true, r) else None
+      | [] => None
+      end
+  | SString =>
+      match dec_int c W64 bs with
+      | Some (n, r) => if over_limit limit 1 n then None else wrap VBytes (take (N.to_nat n) r)
+      | None => None
+      end
+  | SOption s' =>
+      match bs with
+      | b :: r => if b =? 0 then Some (VNone, r)
+                  else if b =? 1 then wrap VSome (decode_limited limit esz c s' r) else None
+      | [] => None
+      end
+  | SVec s' =>
+      match dec_int c W64 bs with
+      | Some (n, r) =>
+          if over_limit limit (esz s') n then None
+          else wrap VList
+            ((fix rep (k : nat) (bs : list N) {struct k} : option (list value * list N) :=
+                match k with
+                | O => Some ([], bs)
+                | S k' =>
+                    match decode_limited limit esz c s' bs with
+                    | Some (v, r1) =>
+                        match rep k' r1 with
+                        | Some (vs, r2) => Some (v :: vs, r2)
+                        | None => None
+                        end
+                    | None => None
+                    end
+                end) (N.to_nat n) r)
+      | None => None
+      end
+  | STuple ss =>
+      wrap VTuple
+        ((fix go (ss : list schema) (bs : list N) {struct ss} : option (list value * list N) :=
+            match ss with
+            | [] => Some ([], bs)
+            | s' :: ss' =>
+                match decode_limited limit esz c s' bs with
+                | Some (v, r1) =>
+                    match go ss' r1 with
+                    | Some (vs, r2) => Some (v :: vs, r2)
+                    | None => None
+                    end
+                | None => None
+                end
+            end) ss bs)
+  | SEnum ss =>
+      match dec_int c W32 bs with
+      | Some (t, r) =>
+          if t <? N.of_nat (length ss) then
+            (fix pick (ss : list schema) (i : nat) {struct ss} : option (value * list N) :=
+               match ss with
+               | [] => None
+               | s' :: ss' =>
+                   match i with
+                   | O => wrap (VEnum (N.to_nat t)) (decode_limited limit esz c s' r)
+                   | S i' => pick ss' i'
+                   end
+               end) ss (N.to_nat t)
+          else None
+      | None => None
+      end
+  | SOpaque _ => None
+  end.
+
+(** every sequence inside [v] passes [prealloc_check] (what the WRITER of such a
+    configuration checks, sequence by sequence, on the in-memory value) *)
+Fixpoint within_limit (limit : N) (esz : schema -> N) (s : schema) (v : value) {struct s} : bool :=
+  match s, v with
+  | SString, VBytes l => negb (over_limit limit 1 (N.of_nat (length l)))
+  | SOption s', VSome v' => within_limit limit esz s' v'
+  | SVec s', VList l =>
+      negb (over_limit limit (esz s') (N.of_nat (length l))) && forallb (within_limit limit esz s') l
+  | STuple ss, VTuple vs =>
+      (fix go (ss : list schema) (vs : list value) {struct ss} : bool :=
+         match ss, vs with
+         | s' :: ss', v' :: vs' => within_limit limit esz s' v' && go ss' vs'
+         | _, _ => true
+         end) ss vs
+  | SEnum ss, VEnum i v' =>
+      (fix pick (ss : list schema) (i : nat) {struct ss} : bool :=
+         match ss with
+         | [] => true
+         | s' :: ss' => match i with O => within_limit limit esz s' v' | S i' => pick ss' i' end
+         end) ss i
+  | _, _ => true
+  end.
+
+(* named forms of the local fixpoints *)
+
+Fixpoint dec_rep_l (limit : N) (esz : schema -> N) (c : cfg) (s' : schema) (k : nat) (bs : list N)
+  {struct k} : option (list value * list N) :=
+  match k with
+  | O => Some ([], bs)
+  | S k' =>
+      match decode_limited limit esz c s' bs with
+      | Some (v, r1) =>
+          match dec_rep_l limit esz c s' k' r1 with
+          | Some (vs, r2) => Some (v :: vs, r2)
+          | None => None
+          end
+      | None => None
+      end
+  end.
+
+Fixpoint dec_tuple_l (limit : N) (esz : schema -> N) (c : cfg) (ss : list schema) (bs : list N)
+  {struct ss} : option (list value * list N) :=
+  match ss with
+  | [] => Some ([], bs)
+  | s' :: ss' =>
+      match decode_limited limit esz c s' bs with
+      | Some (v, r1) =>
+          match dec_tuple_l limit esz c ss' r1 with
+          | Some (vs, r2) => Some (v :: vs, r2)
+          | None => None
+          end
+      | None => None
+      end
+  end.
+
+Fixpoint dec_pick_l (limit : N) (esz : schema -> N) (c : cfg) (t : nat) (r : list N)
+  (ss : list schema) (i : nat) {struct ss} : option (value * list N) :=
+  match ss with
+  | [] => None
+  | s' :: ss' =>
+      match i with
+      | O => wrap (VEnum t) (decode_limited limit esz c s' r)
+      | S i' => dec_pick_l limit esz c t r ss' i'
+      end
+  end.
+
+Fixpoint within_tuple (limit : N) (esz : schema -> N) (ss : list schema) (vs : list value)
+  {struct ss} : bool :=
+  match ss, vs with
+  | s' :: ss', v' :: vs' => within_limit limit esz s' v' && within_tuple limit esz ss' vs'
+  | _, _ => true
+  end.
+
+Fixpoint within_pick (limit : N) (esz : schema -> N) (v' : value) (ss : list schema) (i : nat)
+  {struct ss} : bool :=
+  match ss with
+  | [] => true
+  | s' :: ss' => match i with O => within_limit limit esz s' v' | S i' => within_pick limit esz v' ss' i' end
+  end.
+
+(* ---------- in-memory element sizes ---------- *)
+
+(** [size_of::<T>()] on a 64-bit target for the Rust type behind a schema, as
+    rustc lays out the shapes that occur in Schema_gen.v (the Rust layout is not
+    specified; the check compares these numbers with [size_of] of the element
+    type of every sequence field of YaccGrammar / StateTable on every run):
+    integers by width; [String] = 24; a sequence AS AN ELEMENT is a [Box<[T]>]
+    (fat pointer, 16) in every generated schema; a struct/tuple = the sum of its
+    fields rounded up to its alignment (fields are reordered: no inner padding
+    when every size is a multiple of its alignment); an enum without fields = 1,
+    with fields = one alignment unit for the tag + the largest variant;
+    [Option<T>] = [T] when [T] has a niche (a [bool], a non-null pointer or
+    capacity, a field-less enum tag), else one alignment unit more. *)
+Definition round_up (n a : N) : N := if a =? 0 then n else ((n + a - 1) / a) * a.
+
+Fixpoint mem_align (s : schema) : N :=
+  match s with
+  | SU8 | SBool => 1
+  | SInt w => N.of_nat (iw_bytes w)
+  | SString | SVec _ => 8
+  | SOption s' => mem_align s'
+  | STuple l => fold_right (fun x a => N.max (mem_align x) a) 1 l
+  | SEnum l => fold_right (fun x a => N.max (mem_align x) a) 1 l
+  | SOpaque _ => 1
+  end.
+
+Fixpoint has_niche (s : schema) : bool :=
+  match s with
+  | SBool | SString | SVec _ => true
+  | SOption s' => has_niche s'
+  | STuple l => existsb has_niche l
+  | SEnum l => N.of_nat (length l) <? 256
+  | _ => false
+  end.
+
+Fixpoint mem_size (s : schema) : N :=
+  match s with
+  | SU8 | SBool => 1
+  | SInt w => N.of_nat (iw_bytes w)
+  | SString => 24
+  | SVec _ => 16
+  | SOption s' => if has_niche s' then mem_size s' else round_up (mem_size s' + 1) (mem_align s')
+  | STuple l => round_up (fold_right (fun x a => mem_size x + a) 0 l) (mem_align (STuple l))
+  | SEnum l =>
+      let m := fold_right (fun x a => N.max (mem_size x) a) 0 l in
+      if m =? 0 then 1 else round_up (mem_align (SEnum l) + m) (mem_align (SEnum l))
+  | SOpaque _ => 0
+  end.
+
+(** the element schema of every sequence position of a schema, in the order of
+    the encoding (strings: [SU8]) — what [mem_size] is asked about *)
+Fixpoint seq_elems (s : schema) : list schema :=
+  match s with
+  | SString => [SU8]
+  | SOption s' => seq_elems s'
+  | SVec s' => s' :: seq_elems s'
+  | STuple l => flat_map seq_elems l
+  | SEnum l => flat_map seq_elems l
+  | _ => []
   end.
